@@ -617,7 +617,31 @@ class Translator:
 
     # ---- statements ----
     def block(self, sc, stmts):
-        return seq(*[self.stmt(sc, s) for s in stmts])
+        out = []
+        for s in stmts:
+            out.append(self.stmt(sc, s))
+            if self.definitely_exits(sc, s):
+                break             # the statements after an unconditional return / raise are dead code
+        return seq(*out)
+
+    def definitely_exits(self, sc, s):
+        """does control never fall through this statement to the next one of its block?
+        (return / raise; an if whose taken branch - or both branches - does so)"""
+        if isinstance(s, (ast.Return, ast.Raise)):
+            return True
+        if isinstance(s, ast.If):
+            if sc.in_handler and isinstance(s.test, ast.Call) and isinstance(s.test.func, ast.Name) and s.test.func.id == 'isinstance':
+                return False
+            t = self.truth_of(sc, s.test)
+            if t is True:
+                return self.block_exits(sc, s.body)
+            if t is False:
+                return self.block_exits(sc, s.orelse)
+            return self.block_exits(sc, s.body) and self.block_exits(sc, s.orelse)
+        return False
+
+    def block_exits(self, sc, stmts):
+        return any(self.definitely_exits(sc, x) for x in stmts)
 
     def stmt(self, sc, s):
         if isinstance(s, ast.Expr):
@@ -1119,6 +1143,8 @@ class Translator:
             d = self.dunder(sc, e.value, '__getitem__', e)
             if d is not None:
                 return seq(base, idx, d), None
+            if self.receiver_kind(sc, e.value) == 'dict':
+                return seq(base, idx, self.prim('dict_key')), None
             return seq(base, idx, self.prim('index')), None
         if isinstance(e, ast.Slice):
             return seq(self.expr(sc, e.lower), self.expr(sc, e.upper), self.expr(sc, e.step)), None
@@ -1883,9 +1909,64 @@ class Printer:
         L.append('')
         for label, fs in self.entries.items():
             L.append('Definition entries_%s : list fname := [%s].' % (label, '; '.join('f_' + ident(f) for f in fs)))
-        L.append('Definition fuel : nat := 80%nat.')
+        L.append('Definition fuel : nat := %d%%nat.   (* call-graph depth + 2; a call cycle makes the analysis answer "unknown" *)' % self.fuel)
         L.append('')
         return '\n'.join(L)
+
+
+def term_calls(t, out):
+    k = t[0]
+    if k == 'call':
+        out.add(t[1])
+    elif k in ('seq', 'branch'):
+        for u in t[1]:
+            term_calls(u, out)
+    elif k == 'loop':
+        term_calls(t[1], out)
+    elif k == 'finally':
+        term_calls(t[1], out)
+        term_calls(t[2], out)
+    elif k == 'ifcur':
+        term_calls(t[2], out)
+        term_calls(t[3], out)
+    elif k == 'catch':
+        term_calls(t[1], out)
+        for _, h in t[2]:
+            term_calls(h, out)
+
+
+def call_depth(funs):
+    """(longest call chain, a call cycle or None)"""
+    graph = {}
+    for f, t in funs.items():
+        s = set()
+        term_calls(t, s)
+        graph[f] = sorted(s)
+    depth, state, cycle = {}, {}, []
+
+    def visit(f, path):
+        if state.get(f) == 2:
+            return depth[f]
+        if state.get(f) == 1:
+            if not cycle:
+                cycle.extend(path[path.index(f):] + [f])
+            return 0
+        state[f] = 1
+        d = 1
+        for g in graph.get(f, ()):
+            if g in graph:
+                d = max(d, 1 + visit(g, path + [g]))
+        state[f] = 2
+        depth[f] = d
+        return d
+    import sys
+    old = sys.getrecursionlimit()
+    sys.setrecursionlimit(10000)
+    try:
+        m = max([visit(f, [f]) for f in sorted(graph)] or [1])
+    finally:
+        sys.setrecursionlimit(old)
+    return m, (cycle or None)
 
 
 # --------------------------------------------------------------------------
@@ -1915,6 +1996,10 @@ def translate(repo, class_dump):
     errors += dump.get('errors', [])
     alias, mro = dump['alias'], dump['mro']
     pr = Printer(tr.funs, tr.used_classes, mro, alias, tr.used_prims, entries, handled)
+    depth, cycle = call_depth(tr.funs)
+    pr.fuel = depth + 2
+    if cycle:
+        errors.append('call cycle in the translated summary (the analysis answers "unknown" for it): ' + ' -> '.join(cycle))
     text = pr.text('%d functions, %d primitives, %d classes' % (len(tr.funs), len(tr.used_prims), len(pr.cid)))
     stale = sorted(k for k in T.SAFE_SITES if k not in tr.used_safe)
     meta = {'functions': sorted(tr.funs), 'entries': entries, 'handled': handled,
